@@ -54,8 +54,33 @@ def mergelist_line(batch):
     return '(bitemp mergelist (L%s))' % ''.join(' (T %s %s)' % (enc(stamp(2 * k)), enc_ts(pairs)) for k, pairs in batch)
 
 
-def read_line(t2, what):
+def read_line(t2, what, spelling=None):
+    """spelling: how the read time is handed to bi_read - None = a datetime.datetime; otherwise one of SPELLINGS (the model sees
+    the same time T whatever its spelling)"""
+    if spelling is not None and t2 is not None:
+        return '(bitemp read %s I:%d %s)' % (enc(stamp(t2)), what, enc(spelling))
     return '(bitemp read %s I:%d)' % ('N' if t2 is None else enc(stamp(t2)), what)
+
+
+# the spellings of a date that Bi(ts, asof) accepts for the stamp (through dt()); an as-of read at T spelled in any of them must
+# be the as-of read at T (all stamps and read times of the generators are midnights, so every spelling is exact)
+SPELLINGS = ['str', 'str-compact', 'int', 'date', 'timestamp', 'datetime64']
+
+
+def spell(t, spelling):
+    if spelling == 'str':
+        return t.strftime('%Y-%m-%d')
+    if spelling == 'str-compact':
+        return t.strftime('%Y%m%d')
+    if spelling == 'int':
+        return int(t.strftime('%Y%m%d'))
+    if spelling == 'date':
+        return t.date()
+    if spelling == 'timestamp':
+        return pd.Timestamp(t)
+    if spelling == 'datetime64':
+        return np.datetime64(t)
+    raise ValueError(spelling)
 
 
 def spec_line(t2):
@@ -133,6 +158,8 @@ def history_case(rng, ndates, ordered, idem):
                 lines.append(read_line(t, 0))
         if rng.random() < 0.3:
             lines.append(read_line(rng.choice(T), rng.choice([1, 2, -2, -3, 7, -9])))
+        if rng.random() < 0.5:
+            lines.append(read_line(rng.choice(T), rng.choice([-1, -1, 0]), rng.choice(SPELLINGS)))
     tag = 'h%d-%s' % (ndates, kind)
     if idem:
         # re-merge a version that is in the store: the one merged last (always claimed by the property)
@@ -192,6 +219,14 @@ def generate(rng, tier):
                 for t in T:
                     lines += [read_line(t, -1), spec_line(t), read_line(t, 0)]
             yield dict(tag='special-%s-%d' % (name, nd), lines=lines, ordered=True)
+        # the read time in every spelling, before / on / between / after two stamps
+        hist = [(0, full(1)), (1, full(2)), (2, [(0, 3)])]
+        lines = [merge_line(k, pairs) for k, pairs in hist]
+        for t in read_times(hist):
+            if t is not None:
+                for sp in SPELLINGS:
+                    lines += [read_line(t, -1, sp), read_line(t, 0, sp)]
+        yield dict(tag='special-asof-spellings-%d' % nd, lines=lines, ordered=True)
 
 
 # ---------------------------------------------------------------- implementation runner
@@ -272,6 +307,8 @@ def run_line(state, sx):
     if op in ('read', 'spec'):
         asof = None if args[0] == 'N' else proto.dec(args[0])
         what = proto.dec(args[1]) if op == 'read' else -1
+        if len(args) > 2:
+            asof = spell(asof, proto.dec(args[2]))
         if state['store'] is None:
             return 'ok N'
         return 'ok ' + enc_series(bi_read(state['store'], asof, what))
@@ -292,6 +329,10 @@ def compare(case, i, line, ir, mr):
         return ('divergence', 'history not in stamp order (outside the statement): implementation %s, model %s' % (ir, mr))
     if op == 'spec':
         return 'as-of read differs from the fold of the publication log: implementation %s, specification %s' % (ir, mr)
+    if op == 'read' and len(sx) > 4 and sx[3] in ('I:-1', 'I:0'):
+        t = proto.dec(sx[2])
+        return 'bi_read(asof=%r, what=%s) is not the read as of %s: implementation %s, model %s' % (
+            spell(t, proto.dec(sx[4])), sx[3][2:], t, ir, mr)
     if op == 'read' and sx[3] in ('I:-1', 'I:0'):
         return 'bi_read(what=%s): implementation %s, model (proved equal to the log fold) %s' % (sx[3][2:], ir, mr)
     return ('divergence', '%s: implementation %s, model %s' % (op, ir, mr))
@@ -341,9 +382,10 @@ def py_spec(hist, t2, first=False):
     return out
 
 
-def _read(store, t2, what):
+def _read(store, t2, what, spelling=None):
     from pyg_base._bitemporal import bi_read
-    r = bi_read(store, None if t2 is None else stamp(t2), what)
+    asof = None if t2 is None else stamp(t2)
+    r = bi_read(store, asof if spelling is None or asof is None else spell(asof, spelling), what)
     return {int((pd.Timestamp(t).to_pydatetime() - D0) // DAY): (None if v != v else (int(v) if float(v) == int(v) else float(v)))
             for t, v in zip(r.index, r.values)}, len(r)
 
@@ -373,6 +415,19 @@ def laws(rng, tier, ctx):
                         if (got != want or n != len(want)) and bad is None:
                             bad = ('law-read-spec' if what == -1 else 'law-read-first', lines + [read_line(t, what)],
                                    'bi_read(asof=%s, what=%d) = %s but the publication log gives %s' % (t, what, got, want))
+            # the read time in another spelling is the same read time
+            for t in T:
+                if t is not None:
+                    sp = rng.choice(SPELLINGS)
+                    count += 1
+                    a = _read(store, t, -1)[0]
+                    try:
+                        b = _read(store, t, -1, sp)[0]
+                    except Exception as e:
+                        b = 'raised %s' % type(e).__name__
+                    if a != b and bad is None:
+                        bad = ('law-asof-spelling', lines + [read_line(t, -1, sp)],
+                               'bi_read(asof=%r) = %s but the read as of that time is %s' % (spell(stamp(t), sp), b, a))
             # no look-ahead, directly: what was readable as of T before later versions arrived is still what is read
             for j in range(len(hist) - 1):
                 later = min(k for k, _ in hist[j + 1:])
